@@ -316,6 +316,9 @@ def run(R):
         else:
             R.violation("C06.admit", "any_result", "Row::any_result does not mean `some column is not NULL`: %s" % why, [anyf.loc()])
     _check_not_null_cut(R, exf)
+    # a line that matches no pattern yields no value in any column (BOOLEAN columns included): shared with C01
+    from . import rules_c01
+    rules_c01.bool_pattern_rule(R, "C06.admit")
     # join route
     jf = R.need_fn("sqlgrep::execution::join::JoinedTableData::execute")
     if PR.calls_matching(jf, r"^sqlgrep::execution::execution_engine::ExecutionEngine::execute$"):
